@@ -771,3 +771,235 @@ def generic_replay(prop, path, reimpl=None):
     if reply[1] != impl_c:
         print("correspondence: model and implementation outputs differ on this input (spec holds)")
     return 0
+
+
+# ---------------------------------------------------------------------------
+# input variants: the same graph in another FORM (round 3 of seeded changes: the misses were
+# about the form of the input - numpy integers from a table column, a frozen graph, a view)
+# ---------------------------------------------------------------------------
+VARIANT_KINDS = ("extra_attrs", "numpy", "frozen", "view", "list_labels")
+# irrelevant attributes no function of the library may look at (or lose, when it works in place)
+VARIANT_NODE_EXTRAS = {"note": "x", "weight": 1.0}
+VARIANT_EDGE_EXTRAS = {"note": "x", "weight": 1.0}
+
+
+class VariantDamaged(AssertionError):
+    """an in-place operation changed or dropped attributes it has no business with (call_impl maps
+    it to `(raised Assertion)`: a specification failure)"""
+
+
+def _is_int_id(n):
+    import numpy as np
+    return (isinstance(n, int) and not isinstance(n, bool)) or isinstance(n, np.integer)
+
+
+def _exact_clone(g, node_id=None, node_attrs=None, edge_attrs=None, extra_nodes=(), extra_edges=()):
+    """a new modifiable graph of g's class with g's nodes re-added in the SAME order and g's edges put
+    back so that every adjacency row (and, for multigraphs, every key dict) has the SAME order -
+    `Graph.copy()` re-adds edges in `edges` order and may permute adjacency rows, which exact
+    (order-faithful) correspondences would observe.  Attribute dicts are fresh (lists inside copied).
+
+    node_id(n) -> id in the clone (must be injective, equal ids stay equal: hash-compatible);
+    node_attrs(d) / edge_attrs(d) -> the attribute dict in the clone; extra nodes / edges (with
+    attribute dicts) are appended AFTER everything else so the rows of the original nodes keep their order."""
+    import networkx as nx
+    if g.is_directed():
+        raise ValueError("input_variant handles undirected graphs only")
+    multi = g.is_multigraph()
+    h = nx.MultiGraph() if multi else nx.Graph()
+    h.graph.update(g.graph)
+    nid = node_id or (lambda n: n)
+
+    def cp(d):
+        return {k: (list(v) if isinstance(v, list) else v) for k, v in d.items()}
+    nf = node_attrs or cp
+    ef = edge_attrs or cp
+    ids = {}
+    for n, d in g.nodes(data=True):
+        ids[n] = nid(n)
+        h.add_node(ids[n], **nf(dict(d)))
+    shared = {}
+    for u in g.nodes:
+        for v, dd in g.adj[u].items():
+            key = frozenset((u, v))
+            if key not in shared:
+                shared[key] = {k: ef(dict(d)) for k, d in dd.items()} if multi else ef(dict(dd))
+            h._adj[ids[u]][ids[v]] = shared[key]     # keeps the adjacency order (as c12/c13.dec_graph do)
+    for n, d in extra_nodes:
+        h.add_node(n, **d)
+    for u, v, d in extra_edges:
+        h.add_edge(u, v, **d)
+    return h
+
+
+def graph_shape(g):
+    """everything an order-faithful encoder can observe of a graph: class, node order with attributes,
+    adjacency order with keys and attributes - numpy scalars and lists normalised, extras dropped"""
+    import numpy as np
+
+    def norm(v):
+        if isinstance(v, (list, tuple)):
+            return tuple(norm(x) for x in v)
+        if isinstance(v, np.generic):
+            return v.item()
+        return v
+
+    def attrs(d, extras):
+        return tuple(sorted((k, norm(v)) for k, v in d.items() if not (k in extras and d[k] == extras[k])))
+    multi = g.is_multigraph()
+    nodes = [(norm(n), attrs(d, VARIANT_NODE_EXTRAS)) for n, d in g.nodes(data=True)]
+    rows = []
+    for u in g.nodes:
+        row = []
+        for v, dd in g.adj[u].items():
+            if multi:
+                row.append((norm(v), tuple((norm(k), attrs(d, VARIANT_EDGE_EXTRAS)) for k, d in dd.items())))
+            else:
+                row.append((norm(v), attrs(dd, VARIANT_EDGE_EXTRAS)))
+        rows.append((norm(u), tuple(row)))
+    return (multi, tuple(nodes), tuple(rows))
+
+
+def _variant_of_kind(g, kind, rng):
+    import networkx as nx
+    import numpy as np
+    if kind == "extra_attrs":
+        def nf(d):
+            d = {k: (list(v) if isinstance(v, list) else v) for k, v in d.items()}
+            for k, v in VARIANT_NODE_EXTRAS.items():
+                d.setdefault(k, v)
+            return d
+
+        def ef(d):
+            d = {k: (list(v) if isinstance(v, list) else v) for k, v in d.items()}
+            for k, v in VARIANT_EDGE_EXTRAS.items():
+                d.setdefault(k, v)
+            return d
+        if g.number_of_nodes() == 0:
+            return None
+        return _exact_clone(g, node_attrs=nf, edge_attrs=ef)
+    if kind == "numpy":
+        changed = [False]
+
+        def num(v):
+            if isinstance(v, bool) or v is None:
+                return v
+            if isinstance(v, int):
+                changed[0] = True
+                return np.int64(v)
+            return v
+
+        def order(v):
+            if isinstance(v, float) and not isinstance(v, np.floating):
+                changed[0] = True
+                return np.float64(v)
+            if isinstance(v, tuple):
+                return tuple(order(x) for x in v)
+            if isinstance(v, list):
+                return [order(x) for x in v]
+            return v
+
+        def nf(d):
+            d = {k: (list(v) if isinstance(v, list) else v) for k, v in d.items()}
+            if "aam" in d:
+                d["aam"] = num(d["aam"])
+            return d
+
+        def ef(d):
+            d = dict(d)
+            if "bond" in d:
+                d["bond"] = order(d["bond"])
+            return d
+
+        def nid(n):
+            if isinstance(n, int) and not isinstance(n, bool) and -2 ** 62 < n < 2 ** 62:
+                changed[0] = True
+                return np.int64(n)
+            return n
+        h = _exact_clone(g, node_id=nid, node_attrs=nf, edge_attrs=ef)
+        return h if changed[0] else None
+    if kind == "frozen":
+        return nx.freeze(_exact_clone(g))
+    if kind == "view":
+        n = g.number_of_nodes()
+        if n == 0:
+            return None
+        # at most n extra nodes: networkx iterates a filtered atlas in the order of the underlying graph
+        # only while the shown nodes are at least half of it (otherwise in the order of a python set)
+        k = rng.randint(1, min(3, n))
+        nodes = list(g.nodes)
+        if all(_is_int_id(x) for x in nodes):
+            base = int(max(nodes)) + rng.randint(1, 3)
+            extra = [base + i for i in range(k)]
+        else:
+            extra = [("_unrelated_", i) for i in range(k)]
+            if any(x in g for x in extra):
+                return None
+        sym = "C"
+        en = [(x, {"symbol": sym, "aam": 900 + i}) for i, x in enumerate(extra)]
+        some_edge = next(iter(g.edges(data=True)), None)
+        lab = {"bond": some_edge[2]["bond"]} if some_edge is not None and "bond" in some_edge[2] else {}
+        ee = [(a, b, dict(lab)) for a, b in zip(extra, extra[1:])]
+        if rng.random() < 0.5:
+            ee.append((extra[0], rng.choice(nodes), dict(lab)))     # hidden by the view: one end is not shown
+        big = _exact_clone(g, extra_nodes=en, extra_edges=ee)
+        return big.subgraph(nodes)
+    if kind == "list_labels":
+        changed = [False]
+
+        def ef(d):
+            d = dict(d)
+            if isinstance(d.get("bond"), tuple):
+                d["bond"] = list(d["bond"])
+                changed[0] = True
+            return d
+        h = _exact_clone(g, edge_attrs=ef)
+        return h if changed[0] else None
+    raise ValueError("unknown variant kind %r" % (kind,))
+
+
+def input_variant(g, rng, kinds=("extra_attrs", "numpy", "frozen", "view", "list_labels")):
+    """-> (g2, tag): the networkx graph `g` in another, semantically equal FORM.
+
+    kinds (one is drawn with `rng`; a kind that would not change anything for this graph - no tuple
+    label, no integer anywhere, no node - is skipped; tag 'variant=plain' and `g` itself when none applies):
+      extra_attrs  irrelevant extra node and edge attributes (note='x', weight=1.0)
+      numpy        integer node ids and integer `aam` values as numpy.int64, float bond orders (also
+                   inside (g, h) labels) as numpy.float64 - what a numpy array / table column gives
+      frozen       nx.freeze of a copy made by re-adding nodes and edges in the same order
+      view         G.subgraph(nodes of g) of a larger graph with extra unrelated nodes (and edges)
+      list_labels  tuple bond labels as lists
+    'reordered' is deliberately NOT a kind: node / adjacency order may be observable.  Node order,
+    adjacency order and edge keys of g2 are those of g (checked here: `graph_shape`), so every
+    order-faithful wire encoding (enc_graph, c09.enc_mol, c10.enc_its, ...) of g2 equals that of g."""
+    order = list(kinds)
+    rng.shuffle(order)
+    want = graph_shape(g)
+    for kind in order:
+        h = _variant_of_kind(g, kind, rng)
+        if h is None:
+            continue
+        if graph_shape(h) != want:
+            raise AssertionError("input_variant(%s) changed what the wire form observes (harness defect)" % kind)
+        return h, "variant=" + kind
+    return g, "variant=plain"
+
+
+def variant_extras_intact(g, nodes, edges):
+    """after an IN-PLACE operation on an 'extra_attrs' variant: the original nodes / edges that are still
+    there carry their extra attributes untouched.  Raises VariantDamaged otherwise."""
+    for n in nodes:
+        if n in g:
+            d = g.nodes[n]
+            for k, v in VARIANT_NODE_EXTRAS.items():
+                if k not in d or d[k] != v or type(d[k]) is not type(v):
+                    raise VariantDamaged("node %r lost or changed its attribute %r: %r" % (n, k, d.get(k)))
+    for e in edges:
+        u, v = e[0], e[1]
+        if g.has_edge(u, v):
+            dd = g.get_edge_data(u, v)
+            for d in (dd.values() if g.is_multigraph() else [dd]):
+                for k, val in VARIANT_EDGE_EXTRAS.items():
+                    if k not in d or d[k] != val or type(d[k]) is not type(val):
+                        raise VariantDamaged("edge %r-%r lost or changed its attribute %r: %r" % (u, v, k, d.get(k)))
+    return True
